@@ -42,6 +42,8 @@ THEOREMS = [
     "TornadoModel.C01.chunked_roundtrip_spec",
     "TornadoModel.C01.chunked_roundtrip",
     "TornadoModel.C01.chunked_roundtrip_post",
+    "TornadoModel.C01.model_refines_spec",
+    "TornadoModel.C01.model_eq_spec",
 ]
 TRUSTED = [
     "CPython `re` for _ABNF.request_line / field_value / token / host, r'\\r?\\n\\r?\\n', r',\\s*', r'\\r?\\n$' "
@@ -68,7 +70,7 @@ EXHAUSTIVE = {"quick": False, "thorough": False}
 CLAUSES = {
     "split into TCP segments in any way": "feed_append + segmentation_independent (machine level) ; tie: every stream x several segmentations vs Spec.readAll",
     "exactly the sequence of requests a strict reader extracts": "requestLine_iff, bodyKind_*, host_* ; "
-        "tie only: Model.run = Spec.readAll (model_eq_spec_goal), checked on every case through impl=Model and impl|=Spec",
+        "model_refines_spec, model_eq_spec (machine on the whole stream vs the batch reader Spec.readAll: finished requests, in order); also checked on every case through impl=Model and impl|=Spec",
     "conflicting or non-numeric Content-Length": "bodyKind_cl_not_numeric, bodyKind_cl_unequal",
     "Content-Length together with Transfer-Encoding": "bodyKind_cl_te_conflict",
     "a transfer coding other than chunked": "bodyKind_te_not_chunked, bodyKind_chunked_iff",
@@ -80,7 +82,7 @@ CLAUSES = {
 }
 PARALLEL = True
 CASE_TIMEOUT = 120
-LEVEL_NOTE = "Model.run = Spec.readAll (model_eq_spec_goal) and the chunked encode/decode round trip are tie-only"
+LEVEL_NOTE = "model_eq_spec and the chunked round trip are proved; the batch reader's tail (pending/reject/stop) and bodies are compared with the implementation on every case"
 
 DEFAULT_CFG = {"mh": 65536, "mb": 104857600, "ov": [], "nk": False}
 
